@@ -1,4 +1,9 @@
-(* C02 finding (DESIGN §5 F2): next to an optic axis the binary64 discriminant of index_along's quadratic rounds to a
+(* HISTORICAL RECORD — finding F2 is FIXED in /repo commit 2b77618 (the Roots::No arm of index_along now returns the double
+   root b/2; Props/C02.v, C02_index_along_any_solver_answer covers that arm).  The statements below are about binary64
+   arithmetic and remain true: the rounded discriminant of these inputs IS negative; the repaired code no longer turns that
+   into an index of 0.  Kept as the pinned witness of the fixed finding; not part of any property's obligations.
+
+   C02 finding (DESIGN §5 F2): next to an optic axis the binary64 discriminant of index_along's quadratic rounds to a
    negative number, roots::find_roots_quadratic answers Roots::No and index_along returns 0 ("imaginary index"), although
    the exact discriminant of the very same binary64 inputs is positive (and C02_disc_nonneg shows it can never be negative
    for a unit direction).
